@@ -1110,7 +1110,10 @@ def check_case(rep, case, obs, model_out, disagreements, stats):
             return
         if applicable:
             l2 = float_lnL(case, obs, pub, pi_pub, obs["bprobs"])
-            if l2 is not None and abs(l2 - obs["lnL"]) > PUB_LNL_TOL * max(1.0, abs(l2)):
+            # expm is accurate to ~1e-15 ABSOLUTE per entry of P: a position whose likelihood is itself tiny carries no
+            # relative accuracy (conditioning, not a defect) -- same slack as for re-rooting / edge splits in C11
+            slack = sum(1e-12 / max(x, 1e-300) for x in site)
+            if l2 is not None and abs(l2 - obs["lnL"]) > PUB_LNL_TOL * max(1.0, abs(l2)) + slack:
                 rep.violation(f"published-lnL:{key}", dict(case=small, expected_by_spec=l2, observed_impl=obs["lnL"],
                                                            broken="lnL differs from the value computed from the published definition"))
                 return
